@@ -265,7 +265,79 @@ def c15_one(item):
     return res
 
 
+KIND_CONSTS = [('TypeEnum', n, v) for n, v in (('pay', 1), ('keyreg', 2), ('acfg', 3), ('axfer', 4), ('afrz', 5), ('appl', 6))] + \
+              [('OnCompletion', n, v) for n, v in (('NoOp', 0), ('OptIn', 1), ('CloseOut', 2), ('ClearState', 3), ('UpdateApplication', 4), ('DeleteApplication', 5))]
+
+
+def kindspell_programs():
+    """systematic family for 'naming a transaction type or completion action by word or by number' (and the pushint /
+    intcblock rewrites of that constant): every named constant x operand order x {==, !=} x {assert, bz, bnz}; the by-word
+    program first, then every numeric spelling of the same constant"""
+    out = []
+    for field, name, val in KIND_CONSTS:
+        for const_first in (False, True):
+            for op in ('==', '!='):
+                for use in ('assert', 'bz', 'bnz'):
+                    def prog(push, head=''):
+                        a, b = (push, f"txn {field}") if const_first else (f"txn {field}", push)
+                        cond = f"{a}\n{b}\n{op}"
+                        if use == 'assert':
+                            body = f"{cond}\nassert\ntxn Fee\nint 1000\n<=\nassert\nint 1\nreturn"
+                        else:
+                            body = f"{cond}\n{use} other\ntxn RekeyTo\nglobal ZeroAddress\n==\nassert\nint 1\nreturn\nother:\ntxn Fee\nint 1000\n<=\nassert\nint 1\nreturn"
+                        return f"#pragma version 8\n{head}{body}\n"
+                    base = prog(f"int {name}")
+                    variants = [('number', prog(f"int {val}")), ('hex', prog(f"int {hex(val)}")), ('octal', prog(f"int 0{oct(val)[2:]}" if val else "int 0")),
+                                ('pushint', prog(f"pushint {val}")), ('intc', prog("intc 1", f"intcblock 77 {val}\n")),
+                                ('intc_k', prog("intc_0", f"intcblock {val} 1000\n"))]
+                    out.append((f"kindspell/{field}/{name}/{'const-first' if const_first else 'field-first'}/{op}/{use}", base, variants))
+    return out
+
+
+def c15_kindspell(item):
+    import impl
+    name, base, variants = item['name'], item['base'], item['variants']
+    res = {'name': name, 'src': base, 'viol': [], 'cases': 0}
+    def summ(src):
+        # blocks are matched by position: these rewrites neither add nor remove blocks (the intcblock line joins block 0)
+        c, v = summary("\n".join(tag_lines(src)) + "\n")
+        return sorted(c.items(), key=lambda kv: int(kv[0])), v
+    try:
+        c0, v0 = summ(base)
+    except BaseException as e:
+        res['viol'].append((['base'], f"by-word contract fails to analyse: {type(e).__name__}", base)); return res
+    for kind, src in variants:
+        try:
+            c1, v1 = summ(src)
+        except BaseException as e:
+            res['viol'].append(([kind], f"rewritten contract fails to analyse: {type(e).__name__}", src)); continue
+        res['cases'] += 1
+        if v1 != v0:
+            res['viol'].append(([kind], f"detector verdicts (number of paths) change: {v0} -> {v1}", src))
+        elif [x[1] for x in c0] != [x[1] for x in c1]:
+            k = next(i for i, (x, y) in enumerate(zip(c0, c1)) if x[1] != y[1])
+            res['viol'].append(([kind], f"contexts of block #{k} change: {c0[k][1][0][:160]} -> {c1[k][1][0][:160]}", src))
+    return res
+
+
 def c15(cx):
+    fam = kindspell_programs()
+    if cx.quick():
+        rng = random.Random(f"c15fam/{cx.seed}")
+        # every (constant, operand order) once in the quick tier, with a seed-dependent operator and consumption
+        pick = {}
+        for it in fam:
+            w = it[0].split('/')
+            pick.setdefault((w[1], w[2], w[3]), []).append(it)
+        fam = [rng.choice(v) for v in pick.values()]
+    fres = engine.run_items_with(c15_kindspell, [{'name': n_, 'base': b_, 'variants': v_} for n_, b_, v_ in fam])
+    fam_cases = 0
+    for r in fres:
+        fam_cases += r['cases']
+        if r['cases']: cx.distinct.add(r['name'])
+        for applied, detail, new in r['viol']:
+            cx.violations.append({'kind': 'rewrite', 'program': r['name'], 'prop': 'C15', 'field': '+'.join(applied), 'where': '+'.join(applied), 'detail': detail, 'src': r['src'], 'env': {'rewritten': new}})
+    cx.evaluations += fam_cases
     n = 50 if cx.quick() else 600
     items = [{'name': f'fragment/{cx.seed}/{4000 + i}', 'src': gen.fragment(cx.seed, 4000 + i, max_stmts=4, intc=False)[0], 'seed': cx.seed, 'ncases': 3} for i in range(n)]
     res = engine.run_items_with(c15_one, items)
@@ -278,5 +350,5 @@ def c15(cx):
             cx.violations.append({'kind': 'rewrite', 'program': r['name'], 'prop': 'C15', 'field': '+'.join(applied), 'where': '+'.join(applied), 'detail': detail, 'src': r['src'], 'env': {'rewritten': new}})
     cx.evaluations += cases
     cx.samples += [{'program': res[0]['name'], 'original': res[0]['src'][:300], 'rewrites': ['labels', 'int-spelling', 'layout', 'padding', 'move-subs']}]
-    return {'programs': len(items), 'disagreements_checked': 0, 'rewrite_cases': cases,
-            'rule': 'generated programs x random compositions of {label renaming, int spelling / named constants / pushint, comments-blank lines-indentation, stack-neutral padding, moving subroutine bodies}; blocks are matched through instruction ids carried in comments; distinct = distinct programs'}
+    return {'programs': len(items) + len(fam), 'disagreements_checked': 0, 'rewrite_cases': cases, 'kind_spelling_cases': fam_cases,
+            'rule': 'systematic family (named type / completion constant x operand order x ==,!= x assert,bz,bnz) x {number, hex, octal, pushint, intcblock+intc, intc_k}; generated programs x random compositions of {label renaming, int spelling / named constants / pushint, comments-blank lines-indentation, stack-neutral padding, moving subroutine bodies}; blocks are matched through instruction ids carried in comments; distinct = distinct programs'}
